@@ -57,6 +57,14 @@ def cases(tier, seed):
                             continue
                         for lo in range(0, 1 << n, CHUNK * 2):
                             out.append(dict(p=p, q=q, d=d, mask=mask, pos=pos, bg=bg, lo=lo, hi=min(1 << n, lo + CHUNK * 2), rows=None, seed=seed))
+    # coarse designs: every sign pattern of a coarse cp x cq grid, upsampled to blocks -> larger designs where a diameter-5 brush
+    # has room to interact with previously painted solid (the only regime in which void touches can overlap solid)
+    coarse = [((3, 3), (3, 3), 5), ((3, 4), (3, 3), 5), ((3, 4), (3, 3), 3)] + ([((4, 4), (3, 3), 5), ((3, 3), (4, 3), 5)] if tier == "thorough" else [])
+    for (cp, cq), (up, uq), d in coarse:
+        for mask in ("distinct", "seed") + (("unit",) if tier == "thorough" else ()):
+            nb = cp * cq
+            for lo in range(0, 1 << nb, 512):
+                out.append(dict(p=cp * up, q=cq * uq, d=d, mask=mask, pos=2, bg="low", lo=lo, hi=min(1 << nb, lo + 512), rows=None, coarse=[cp, cq], seed=seed))
     if tier == "thorough":
         for d in (1, 2, 3, 5):
             for mask in ("distinct", "unit", "seed"):
@@ -68,6 +76,7 @@ def cases(tier, seed):
 
 def bounds(tier, seed):
     return {
+        "coarse_designs": "all sign patterns of 3x3 and 3x4 coarse grids upsampled 3x3 (9x9, 9x12 designs) with brush diameters 5 and 3",
         "designs": "all sign patterns on 3x3, 2x4, 3x4, 4x3, 4x4" + ("; 5x5 with <= 2 sign changes per row (22^5 patterns)" if tier == "thorough" else ""),
         "magnitude_masks": _masks(tier, seed),
         "brush_diameters": [1, 2, 3] + ([5] if tier == "thorough" else []),
@@ -214,7 +223,12 @@ def run_case(case):
             allbits = None
             ranges = [(case["lo"] + a, case["lo"] + b) for a, b in PT.chunks(case["hi"] - case["lo"], CHUNK)]
         for ci, (lo, hi) in enumerate(ranges):
-            bits = allbits[lo:hi] if allbits is not None else PT.all_binary(n, lo, hi)
+            if case.get("coarse"):
+                cp, cq = case["coarse"]
+                cb = PT.all_binary(cp * cq, lo, hi).reshape(-1, cp, cq)
+                bits = np.kron(cb, np.ones((1, p // cp, q // cq), dtype=cb.dtype)).reshape(len(cb), n)
+            else:
+                bits = allbits[lo:hi] if allbits is not None else PT.all_binary(n, lo, hi)
             sign = bits.astype(np.float64) * 2 - 1
             X = (sign * mag.ravel()[None, :]).reshape((-1, *shape))
             evals += len(X)
